@@ -141,6 +141,9 @@ v("C07", "b7-error-mapping-default-500", "break", "app.go", "\t\terr = NewError(
 v("C07", "b8-new-helper-raw-header", "break", "ctx.go", "func (c *DefaultCtx) Location(path string) {\n\tc.setCanonical(HeaderLocation, path)\n}", "func (c *DefaultCtx) Location(path string) {\n\tc.fasthttp.Response.Header.SetBytesV(HeaderLocation, utils.UnsafeBytes(path))\n}", "Location:SetBytesV", "a helper switches to another non-sanitising setter")
 v("C07", "n1-sanitizer-bytes-form", "benign", "helpers.go", "\tif strings.IndexByte(val, '\\r') == -1 && strings.IndexByte(val, '\\n') == -1 {\n\t\treturn val\n\t}", "\tif strings.IndexByte(val, '\\n') == -1 && strings.IndexByte(val, '\\r') == -1 {\n\t\treturn val\n\t}", why="commuted tests")
 v("C07", "n2-set-instead-of-setcanonical", "benign", "ctx.go", "func (c *DefaultCtx) Location(path string) {\n\tc.setCanonical(HeaderLocation, path)\n}", "func (c *DefaultCtx) Location(path string) {\n\tc.Set(HeaderLocation, path)\n}", why="sanitising setter used instead")
+v("C07", "b9-slice-ahead-of-hasprefix", "break", "helpers.go", "\t\t\tqIndex := i + 3\n\t\t\tif bytes.HasPrefix(accept[i:], []byte(\";q=\")) && bytes.IndexByte(accept[qIndex:], ';') == -1 {", "\t\t\tqIndex := i + 3\n\t\t\trest := accept[qIndex:]\n\t\t\tif bytes.HasPrefix(accept[i:], []byte(\";q=\")) && bytes.IndexByte(rest, ';') == -1 {", "offset-access-behind-its-guard", "accept[i+3:] evaluated before HasPrefix proved three more bytes: `Accept: a;` panics")
+v("C07", "b10-index-ahead-of-len-guard", "break", "binder/mapping.go", "if i+1 < len(kbytes) && kbytes[i+1] != ']' {", "if kbytes[i+1] != ']' && i+1 < len(kbytes) {", "offset-access-behind-its-guard", "conjuncts swapped: a query key ending in `[` indexes past the end")
+v("C07", "n3-len-guard-instead-of-hasprefix", "benign", "helpers.go", "\t\t\tif bytes.HasPrefix(accept[i:], []byte(\";q=\")) && bytes.IndexByte(accept[qIndex:], ';') == -1 {", "\t\t\tif len(accept) >= qIndex && string(accept[i:qIndex]) == \";q=\" && bytes.IndexByte(accept[qIndex:], ';') == -1 {", why="a len comparison bounds the same offset")
 
 # ---------------------------------------------------------------- C08
 v("C08", "b1-non-strict-compare", "break", "app.go", "len(prefix) > mountedPrefixLen {", "len(prefix) >= mountedPrefixLen {", "strict-injective-key", "non-strict comparison")
